@@ -29,13 +29,15 @@ def memoize(func):
     @wraps(func)
     def wrapper(self, *args):
         try:
+            hash(args)
+        except TypeError:
+            warnings.warn("Cannot memoize inputs to %s" % func)
+            return func(self, *args)
+        try:
             return cache[self][args]
         except KeyError:
             cache.setdefault(self, {})[args] = func(self, *args)
             return cache[self][args]
-        except TypeError:
-            warnings.warn("Cannot memoize inputs to %s" % func)
-            return func(self, *args)
 
     return wrapper
 
